@@ -63,6 +63,8 @@ class RuleResult:
     def need(self, rule: str, minimum: int, what: str) -> None:
         """Fail closed: a rule that examined fewer instances than confirmed by hand is broken."""
         n = sum(1 for o in self.obs if o.rule == rule)
+        if n < minimum and any(o.rule == rule and not o.ok for o in self.obs):
+            return  # the rule already reports a violation that cut its enumeration short
         if n < minimum:
             from .frontend import AnalysisError
 
